@@ -22,7 +22,7 @@ except Exception:  # noqa: BLE001
 ID = 'C14'
 B = 1 << 18            # largest distinct count that must be reported exactly
 TOP = 1 << 21          # largest distinct count covered by the 2 % clause
-RULE = ('Big histories: case = (value family in {"v<i>", 8-digit hex strings as internal_hash yields (bijective 32-bit mix of '
+RULE = ('Big histories: case = (value family in {"v<i>", zero-padded 8-digit decimal ids, consecutive ids as 8 hex digits, 8-digit hex strings as internal_hash yields (bijective 32-bit mix of '
         'salt+i), unicode}, salt, segment list). Segments: fresh(k) adds k values never added before; '
         'replay(lo, hi, order) re-adds the already added values with indices in [lo,hi) in order asc / desc / perm(seed) / '
         'sample-with-replacement(seed, count); probe observes len; shuffle(seed, mode) (only while <= 2^18 distinct) feeds the whole '
@@ -39,7 +39,7 @@ ASSUMPTIONS = ['only strings are fed (the pipeline feeds internal_hash hex strin
                '(relative std of the linear-counting estimate is <= 0.3 % in this range, so 2 % is > 6 sigma)',
                'value families are injective by construction, so the model distinct count is the number of fresh indices']
 
-FAMILIES = ['hex', 'v', 'uni']
+FAMILIES = ['hex', 'v', 'uni', 'dec8', 'hexseq']
 _M32 = 0xFFFFFFFF
 CHUNK = 1 << 16
 SHUFFLE_MAX_ADDS = 3 * B      # shuffle segments re-feed everything: skipped (and counted) beyond this many adds
@@ -57,6 +57,10 @@ def make_values(family, salt, idx):
         return ['%08x' % v for v in x.tolist()]
     if family == 'v':
         return ['v%d' % v for v in x.tolist()]
+    if family == 'dec8':       # zero-padded decimal ids: 8 characters that also parse as hexadecimal, far from uniform
+        return ['%08d' % (v % 100_000_000) for v in (idx.astype(np.uint64) + np.uint64(salt % 1000)).tolist()]
+    if family == 'hexseq':     # consecutive ids written as 8 hex digits (look like digests, are not uniformly distributed)
+        return ['%08x' % (v & _M32) for v in x.tolist()]
     if family == 'uni':
         return ['ключ%d値é' % v for v in x.tolist()]
     raise Inconclusive()
